@@ -566,12 +566,38 @@ func runStrutil(cfg Cfg) {
 		s.Count("input.random-bytes")
 	}
 
+	// long strings (beyond any small-string fast path), half of them with the ~/ prefix
+	for i, n := 0, cfg.N(600, 6000); i < n; i++ {
+		r := rng.Fork()
+		b := make([]byte, 48+r.Intn(200))
+		for j := range b {
+			if r.Chance(80) {
+				b[j] = byte('a' + r.Intn(26))
+			} else {
+				b[j] = Pick(r, shAlphabet)
+			}
+		}
+		if i%2 == 0 {
+			b = append([]byte("~/"), b...)
+		}
+		inputs = append(inputs, b)
+		s.Count("input.long")
+	}
+
 	// ---- (a) correspondence lines, and the shell cases
 	var cases []wordCase
 	for i, in := range inputs {
 		str := string(in)
-		e := callEscape(strutil.ShellEscape, str)
-		t := callEscape(strutil.ShellEscapeExceptTilde, str)
+		// the two functions are called in alternating order: the answer of one must not depend on
+		// whether the other has seen the same string before
+		var e, t string
+		if i%2 == 0 {
+			e = callEscape(strutil.ShellEscape, str)
+			t = callEscape(strutil.ShellEscapeExceptTilde, str)
+		} else {
+			t = callEscape(strutil.ShellEscapeExceptTilde, str)
+			e = callEscape(strutil.ShellEscape, str)
+		}
 		h := hx(in)
 		s.Line("esc "+h, hxs(e))
 		if strings.HasPrefix(t, "panic:") {
